@@ -26,6 +26,11 @@ CLAIMED = {
          "Bernstein polynomial, start/end points, and HasDerivAt facts for every derivative order (all t, inside or outside [0,T]); the cubic and "
          "septic boundary-value solvers meet every requested condition (T != 0); traj/multirotor outputs are the curve and its successive derivatives.",
          "DESIGN.md §2 C18", TECH_T),
+ "C07": ("proof", "Lean 4 theorems over the regenerated conversion programs: Shepperd matrix->quaternion (all four branches) returns a unit quaternion "
+         "with the same matrix for EVERY proper rotation matrix; quaternion<->MRP (either sign, q0=-1 included), MRP/quaternion/Euler->DCM, DCM/Euler->"
+         "quaternion, DCM->MRP preserve the rotation and return valid parameters (unit norm, |MRP|<=1, orthonormal det 1); the shadow switch never "
+         "changes the rotation; Euler pitch in [-pi/2,pi/2]. Conversions INTO Euler form and the band tolerance: numeric search only (named in evidence).",
+         "DESIGN.md §2 C07", TECH_T),
 }
 checks = []
 for pid, (cat, text, ref, tech) in CLAIMED.items():
